@@ -349,6 +349,12 @@ def execute(schedule, ctx):
         for what_, res_ in probes.get_ctl(A).callbacks:
             ctx.fault('callback-into-library' if res_ == 'ok' else 'callback-into-library-raised')
             ctx.probe('callback:' + what_)
+        if tr is True or not tracing:
+            # what the user's own code meets when it calls back into the library (another model solved with the keywords
+            # the hook was given, a copy, an export ...) is the same with and without tracing
+            cbA, cbB = probes.get_ctl(A).callbacks, probes.get_ctl(B).callbacks
+            if entry != 'solve' and not respec and _cls(oA) == _cls(oB):
+                chk('interference/callback-outcomes', cbA == cbB, {'traced': cbA[:6], 'untraced': cbB[:6]})
         S.count_faults(ctx, probes.get_ctl(B).log, opts)
         ctx.count('passes', sum(1 for r in probes.get_ctl(A).log if r['hook'] == 'eval'))
         ctx.count('steps', len(probes.get_ctl(A).log))
